@@ -41,7 +41,7 @@ type cfCase struct {
 
 // abstract names -> strings that need care in YAML
 var cfNames = map[string]string{
-	"u1": "on", "u2": "u: 2", "ux": "~", "l1": "*l1", "l2": "null", "lx": "lx #c", "c1": "0123", "cx": "cx",
+	"u1": "on", "u2": "u: 2", "ux": "~", "l1": "*l1 ", "l2": " null", "lx": "lx #c", "c1": "0123", "cx": "cx",
 	"p1": "héllo", "px": "px", "": "", "u1b": "u1 renamed",
 }
 
